@@ -69,6 +69,19 @@ def compute_ctc3(mm):
     return compute_ctc(mm, fl_channel=3)
 
 
+def crosstalk_requirements(mm):
+    """Requirement function returning all crosstalk matrix elements
+
+    All crosstalk matrix elements present in the [calculation]
+    configuration section enter :func:`compute_ctc`, not only those
+    required by the respective ancillary feature. The return value is
+    used for identifying cached data.
+    """
+    calccfg = mm.config["calculation"]
+    return ("crosstalk", tuple((key, calccfg[key]) for key in sorted(calccfg)
+                               if key.startswith("crosstalk fl")))
+
+
 def get_method(fl_channel):
     if fl_channel == 1:
         return compute_ctc1
@@ -109,25 +122,29 @@ def register():
                          method=get_method(flch),
                          req_features=opts_all[0],
                          req_config=[["calculation", opts_all[1]]],
-                         priority=1)
+                         priority=1,
+                         req_func=crosstalk_requirements)
 
     for flch in [1, 2]:
         AncillaryFeature(feature_name="fl{}_max_ctc".format(flch),
                          method=get_method(flch),
                          req_features=opts_12[0],
                          req_config=[["calculation", opts_12[1]]],
-                         priority=0)
+                         priority=0,
+                         req_func=crosstalk_requirements)
 
     for flch in [1, 3]:
         AncillaryFeature(feature_name="fl{}_max_ctc".format(flch),
                          method=get_method(flch),
                          req_features=opts_13[0],
                          req_config=[["calculation", opts_13[1]]],
-                         priority=0)
+                         priority=0,
+                         req_func=crosstalk_requirements)
 
     for flch in [2, 3]:
         AncillaryFeature(feature_name="fl{}_max_ctc".format(flch),
                          method=get_method(flch),
                          req_features=opts_23[0],
                          req_config=[["calculation", opts_23[1]]],
-                         priority=0)
+                         priority=0,
+                         req_func=crosstalk_requirements)
